@@ -226,3 +226,6 @@ package hash
 //@ func (Hasher).Algorithm
 //@ requires self != nil
 //@ assigns nothing
+
+//@ func (HashingAlgorithm).String mode int props C09 tags purego
+//@ assigns nothing
